@@ -15,7 +15,7 @@ import (
 func tryReplay(eng *Engine, ob *Obligation, model, repo, verif string) (bool, map[string]any) {
 	tmpl := replayTemplates[ob.Func]
 	if tmpl == nil {
-		return false, map[string]any{"note": "no replay template for " + ob.Func}
+		return genericReplay(eng, ob, repo, verif) // replay_run.go: generic model -> test generator
 	}
 	pkg, src, err := tmpl(ob, model)
 	if err != nil {
